@@ -87,6 +87,52 @@ CLAIMED.update({
     },
 })
 
+CLAIMED.update({
+    "C14": {
+        "text": "Linear: TLC proves NeverInward / LessThanTwoSteps / OnTenthOfStep for the two-pass nice on every integer domain of a grid x m "
+                "(spec/LinTicks.tla) and evaluates the same predicates on nice() results observed from LinearScale at decades 1e-6..1e9 and on random "
+                "floats. Time: the predicates (never inward, orientation, less than two tick steps of the original ticks, aligned to the calendar "
+                "class of the tick spacing via spec/Calendar.tla) are evaluated by TLC on TimeScale.nice() results for curated and random domains.",
+        "note": "Known finding F-14L (float noise double-widening in LinearScale.nice) is exempted only for its exact pattern, decided by TLC.",
+        "technique": "TLA+ tick/nice model checked exhaustively by TLC; trace validation of nice() records (linear and time)",
+        "design_ref": "DESIGN.md section 8 (C14)",
+    },
+    "C15": {
+        "text": "TLC evaluates, in exact BigNat arithmetic on milliseconds since the epoch, that every mapped position observed from TimeScale is the "
+                "affine image of elapsed time (cross-multiplied), end points map exactly, later instants map strictly farther, invert returns the "
+                "instant within 1 ms, and the result agrees with a LinearScale on epoch milliseconds; Tz.tla shows at design level why local-time "
+                "conversions would break proportionality.",
+        "note": "Floats carried exactly (x 1e9) as BigNat; tolerance 1e-9 of the range magnitude times the extrapolation factor.",
+        "technique": "trace validation of TimeScale call/return records with exact arithmetic in TLA+ (TLC); small TLA+ zone model",
+        "design_ref": "DESIGN.md section 8 (C15)",
+    },
+    "C16": {
+        "text": "Declarative tick predicates (defined, strictly increasing, in domain, calendar-boundary class implied by the spacing, gap ratio <= 2, "
+                "count bounds) are evaluated by TLC with spec/Calendar.tla on TimeScale.ticks() results for a curated lattice of start instants x "
+                "span ladder (1 ms..250 y) x counts and for seeded random domains biased to month ends.",
+        "note": "The operational tick-method model (bisect + geometric mean) is not yet part of the specification; verdicts come from the declarative predicates.",
+        "technique": "trace validation of ticks() records against TLA+ calendar predicates (TLC); calendar model checked by TLC",
+        "design_ref": "DESIGN.md section 8 (C16)",
+    },
+    "C17": {
+        "text": "spec/Calendar.tla (civil calendar, seven units, functional floor/ceil/round/offset/range and declarative IsFloor/IsCeil/IsRound/"
+                "IsKthFollowing/IsRange) is checked by TLC for self-consistency on every day of 1900-2199; every d3_time call observed from the code "
+                "(every day of 300 years at 4 times of day in the thorough tier, every hour of 7 years, random instants) is validated by TLC against "
+                "the declarative predicates.",
+        "note": "Week ranges only for step 1. The spec's calendar is cross-checked against datetime's civil fields on every record.",
+        "technique": "TLA+ calendar model checked by TLC; trace validation of d3_time call/return records",
+        "design_ref": "DESIGN.md section 8 (C17)",
+    },
+    "C18": {
+        "text": "The C14-C17 drivers are run under five process time zones with identical seeds; TLC checks (a) that the output digests of every "
+                "computation are identical across zones (ZoneTrace.tla) and (b) that every zone's records satisfy the zone-free predicates; Tz.tla "
+                "model-checks that zone-free conversions are zone independent and that mktime-style conversions are not.",
+        "note": "Zones are POSIX TZ strings. Exported timelines are added to the side-by-side comparison by the timeline checks.",
+        "technique": "differential trace validation across process time zones, verdicts by TLC; TLA+ zone model",
+        "design_ref": "DESIGN.md section 8 (C18)",
+    },
+})
+
 NOT_YET = "check not built yet in this round; planned with the TLA+ specification described in DESIGN.md section 8"
 
 
